@@ -170,7 +170,7 @@ def topo_order(rnd, graph):
     return order
 
 
-def build_api(graph, order, by_object):
+def build_api(graph, order, by_object, keep=None):
     """the same program built in code with Program.add_command; a reference is given as the Command object itself or by name"""
     p = Program(libraries=("verif_cmds",))
     cls = p.find_command_class("Probe")
@@ -194,11 +194,13 @@ def build_api(graph, order, by_object):
             args["%s%d" % (kind, slots[kind])] = val
             targs.append("'%s%d': %s" % (kind, slots[kind], t))
         p.add_command(cls, "r%d" % i, args)
+        if keep is not None:
+            keep.append((i, args))
         text.append("p.add_command(Probe, 'r%d', {%s})" % (i, ", ".join(targs)))
     return p, "\n".join(text)
 
 
-def observe(graph, order, ops, by_object=None, flaky=(), replace=None, copied=False):
+def observe(graph, order, ops, by_object=None, flaky=(), replace=None, copied=False, twin=False):
     n = len(graph)
     src = render(graph, order)
     del probe.LOG[:]
@@ -206,7 +208,18 @@ def observe(graph, order, ops, by_object=None, flaky=(), replace=None, copied=Fa
     probe.FLAKY.update(flaky)
     obs = {"tag": 3, "rep": None, "vals": [], "enter": [], "exit": [], "after": 0, "detail": "", "identity_ok": True}
     try:
-        if by_object is not None:
+        if twin:
+            # one model specification (the same argument dictionaries and LIST OBJECTS) applied to two programs: the first is run,
+            # then the second is built from the very same containers and run; it is fed by its own commands
+            kept = []
+            p1, src = build_api(graph, order, [False], keep=kept)
+            p1.run()
+            del probe.LOG[:]
+            p = Program(libraries=("verif_cmds",))
+            for i, args in kept:
+                p.add_command(p.find_command_class("Probe"), "r%d" % i, args)
+            src += "\n# p.run(); then a second Program is built with add_command from the SAME argument dictionaries and list objects, and run"
+        elif by_object is not None:
             p, src = build_api(graph, order, by_object)
         else:
             p = Program.from_source(src, libraries=("verif_cmds",))
@@ -363,6 +376,8 @@ def main():
                 jobs.append((g, topo_order(rnd, g), ops, [rnd.random() < 0.6 for _ in range(7)]))
             if rnd.random() < 0.15 and nn >= 2:   # one or two commands fail the first time they execute; the model is run again
                 jobs.append((g, order, ops, None, {"flaky": rnd.sample(range(nn), rnd.randint(1, min(2, nn)))}))
+            if rnd.random() < 0.1:                # two programs built from the same argument containers
+                jobs.append((g, topo_order(rnd, g), ops, None, {"twin": True}))
             if rnd.random() < 0.1:                # a deep copy of the program is run instead of the program
                 jobs.append((g, order, ops, None, {"copied": True}))
             if rnd.random() < 0.15 and nn >= 2:   # a command replaced through the API before the run
@@ -404,7 +419,7 @@ def main():
         g, order, ops = job[:3]
         nn = len(g)
         extra = job[4] if len(job) > 4 else {}
-        src, obs = observe(g, order, ops, job[3] if len(job) > 3 else None, flaky=extra.get("flaky", ()), replace=extra.get("replace"), copied=extra.get("copied", False))
+        src, obs = observe(g, order, ops, job[3] if len(job) > 3 else None, flaky=extra.get("flaky", ()), replace=extra.get("replace"), copied=extra.get("copied", False), twin=extra.get("twin", False))
         dist["built_in_code"] = dist.get("built_in_code", 0) + int(len(job) > 3 and job[3] is not None)
         dist["flaky_histories"] = dist.get("flaky_histories", 0) + int("flaky" in extra)
         dist["edited_models"] = dist.get("edited_models", 0) + int("replace" in extra)
